@@ -181,6 +181,50 @@ pub fn c04(tier: Tier, seed: u64) -> Prop {
             units.extend(bit_units(r.name, tier, seed));
         }
     }
+    // ---- the I/O page under different backgrounds: a register that starts acting only when *another* register of
+    //      the page holds a particular pattern (an enable bit in a second control register) is invisible while the
+    //      rest of the page holds one fixed image
+    {
+        let rows: Vec<(usize, bool)> = ROWS
+            .iter()
+            .enumerate()
+            .filter_map(|(i, r)| match r.sem {
+                Sem::Bit { op, by_reg, loc: Mode::A8, .. } if matches!(op, crate::hv::isa::BitOp::Bset | crate::hv::isa::BitOp::Bclr | crate::hv::isa::BitOp::Bnot | crate::hv::isa::BitOp::Bst) => Some((i, by_reg)),
+                _ => None,
+            })
+            .collect();
+        let nrows = rows.len();
+        let bgs: Vec<u8> = if tier == Tier::Thorough { (0..=255u8).collect() } else { K16.to_vec() };
+        let nb = bgs.len() as u64;
+        let dom = format!("every plain byte of the @aa:8 I/O page (H'FFFF20-H'FFFFE9 minus port and timer registers) filled with one background value, for each of {} background values; under each background every such address x all 256 operand values x bit numbers {{0, 7}} x the {} memory-writing @aa:8 forms (BSET/BCLR/BNOT/BST/BIST, immediate and register bit number): exactly the addressed bit changes, no other byte changes", nb, nrows);
+        units.push(Unit::new("io-page-backgrounds", nb, &dom, move |ctx, chunk| {
+            let b = bgs[chunk as usize];
+            let page: Vec<u32> = (0xffff20u32..=0xffffe9).filter(|a| !sem::is_port_reg(*a) && !sem::is_timer_reg(*a)).collect();
+            for &a in page.iter() {
+                ctx.m.poke_sticky(a, b);
+            }
+            for &(row, by_reg) in rows.iter() {
+                for &ea in page.iter() {
+                    for bn in [0u8, 7] {
+                        let mut f = Fields::default();
+                        f.rd = 2;
+                        f.ra = 4;
+                        f.rn = 11;
+                        f.bitn = bn;
+                        f.data = ea & 0xff;
+                        for val in 0..=255u8 {
+                            let c = bit_case(&ctx.isa, row, &f, Mode::A8, by_reg, ea, 0, val, bn, if val & 1 == 0 { 0x00 } else { 0x01 }, dom::CODE_RAM);
+                            ctx.run(&c);
+                        }
+                    }
+                }
+                if ctx.stop {
+                    break;
+                }
+            }
+            ctx.m.end_sticky();
+        }));
+    }
     Prop {
         id: "C04",
         level: "exploration",
